@@ -586,6 +586,70 @@ def f_short_antecedent_elsewhere(rng):
     return first + mid + short
 
 
+_EDITION_BOUNDARIES = None
+
+
+def edition_boundaries():
+    """(reporter string, year) pairs at the first/last year (+-1) of every candidate edition of reporter strings that have SEVERAL candidate
+    editions in reporters-db (the only place where the year decides the edition guess)"""
+    global _EDITION_BOUNDARIES
+    if _EDITION_BOUNDARIES is None:
+        out = []
+        try:
+            from reporters_db import REPORTERS as R
+
+            by_string = {}
+            for _, entries in sorted(R.items()):
+                for entry in entries:
+                    eds = entry.get("editions", {})
+                    for name, ed in eds.items():
+                        by_string.setdefault(name, []).append(ed)
+                    for var, target in entry.get("variations", {}).items():
+                        if target in eds:
+                            by_string.setdefault(var, []).append(eds[target])
+            for name in sorted(by_string):
+                eds = by_string[name]
+                if len(eds) < 2 or not (0 < len(name) < 40):
+                    continue
+                ys = set()
+                for ed in eds:
+                    for d in (ed.get("start"), ed.get("end")):
+                        if d is not None and hasattr(d, "year"):
+                            ys.update({d.year - 1, d.year, d.year + 1})
+                out += [(name, y) for y in sorted(ys) if 1600 <= y <= THIS_YEAR + 1]
+        except Exception:
+            pass
+        _EDITION_BOUNDARIES = out or [("W.2d", 2023), ("Wash.", 1889)]
+    return _EDITION_BOUNDARIES
+
+
+def f_edition_boundary(rng):
+    """an ambiguous reporter string cited with a year at the boundary of one of its candidate editions"""
+    rep, y = rng.choice(edition_boundaries())
+    return f"{P(party(rng))} v. {P(party(rng))}, {num(rng, 99)} {rep} {num(rng)} ({y})"
+
+
+def f_repeat_ambiguous(rng):
+    """the SAME full citation twice with a reporter string that has several candidate editions and no year: equal citations, one resource"""
+    rep = rng.choice(AMBIGUOUS_REPORTERS + [b[0] for b in edition_boundaries()[:40]])
+    v, pg = num(rng, 99), num(rng)
+    a = f"{P(party(rng))} v. {P(party(rng))}, {v} {rep} {pg}."
+    b = rng.choice([f"See {v} {rep} {pg}.", f"{P(party(rng))} v. {P(party(rng))}, {v} {rep} {pg}, {num(rng)}."])
+    return f"{a} It was so. {b} Id. at {num(rng)}."
+
+
+def f_dup_full_later(rng):
+    """a bare full citation, a short form / id. that refers to it, and LATER the same citation again with a case name: what was grouped by
+    the prefix must stay grouped"""
+    rep = rng.choice(["U.S.", "F.2d", "F.3d", "N.E.2d", "P.2d"])
+    v, pg = num(rng, 99), num(rng)
+    first = rng.choice([f"The rule is settled. {v} {rep} {pg}.", f"{v} {rep} {pg}."])
+    mid = rng.choice([f" As stated, {v} {rep}, at {num(rng)}.", f" {v} {rep}, at {num(rng)}. Id. at {num(rng)}."])
+    p = party(rng)
+    later = f" See also {P(p)} v. {P(party(rng))}, {v} {rep} {pg}, {num(rng)} (1990). {P(p)}, supra, at {num(rng)}."
+    return first + mid + later
+
+
 def f_reference_before(rng):
     """a party name mentioned (italicised in markup mode) BEFORE the full citation as well as after it: only the later
     mention may become a reference citation"""
@@ -604,6 +668,9 @@ FAMILIES = {
     "same_vol_page_series": f_same_vol_page_series,
     "short_no_volume": f_short_no_volume,
     "huge_pin": f_huge_pin,
+    "edition_boundary": f_edition_boundary,
+    "repeat_ambiguous": f_repeat_ambiguous,
+    "dup_full_later": f_dup_full_later,
     "short_antecedent_elsewhere": f_short_antecedent_elsewhere,
     "reference_before": f_reference_before,
     "full": f_full,
@@ -635,7 +702,7 @@ DEFAULT_MIX = [
     ("supra", 5), ("id", 6), ("law", 5), ("journal", 4), ("placeholder", 3), ("cal_year", 5),
     ("string_cite", 4), ("nested_paren", 4), ("nominative_overlap", 5), ("odd_v", 5), ("reference", 5),
     ("id_after_odd_page", 3), ("long_digits", 0.4), ("filler", 6), ("hostile", 2), ("section_glued", 2),
-    ("long_backward", 5), ("reference_before", 2), ("same_vol_page_series", 4), ("short_no_volume", 4), ("short_antecedent_elsewhere", 4), ("huge_pin", 2),
+    ("long_backward", 5), ("reference_before", 2), ("same_vol_page_series", 4), ("short_no_volume", 4), ("short_antecedent_elsewhere", 4), ("huge_pin", 2), ("edition_boundary", 6), ("repeat_ambiguous", 3), ("dup_full_later", 3),
 ]
 
 # focus (qualified function name, without the leading "eyecite.") -> template families
@@ -656,7 +723,7 @@ FOCUS = {
     "helpers.overlapping_citations": [("short_parallel", 8), ("reference", 8), ("parallel", 6)],
     "resolve._has_invalid_pin_cite": [("huge_pin", 8), ("id_after_odd_page", 12), ("placeholder", 3), ("id", 3), ("long_digits", 1)],
     "resolve._resolve_id_citation": [("id_after_odd_page", 8), ("id", 6), ("string_cite", 4)],
-    "resolve.resolve_citations": [("short_antecedent_elsewhere", 5), ("same_vol_page_series", 5), ("id_after_odd_page", 4), ("reference", 4), ("short", 4), ("supra", 4), ("id", 4), ("full", 4)],
+    "resolve.resolve_citations": [("dup_full_later", 6), ("repeat_ambiguous", 6), ("short_antecedent_elsewhere", 5), ("same_vol_page_series", 5), ("id_after_odd_page", 4), ("reference", 4), ("short", 4), ("supra", 4), ("id", 4), ("full", 4)],
     "tokenizers.Tokenizer.tokenize": [("nominative_overlap", 12), ("full", 3), ("section_glued", 3), ("supra", 2), ("id", 2), ("string_cite", 2), ("hostile", 2)],
     "tokenizers.token_is_from_nominative_reporter": [("nominative_overlap", 12), ("full", 2)],
     "tokenizers.Tokenizer.append_text": [("filler", 6), ("hostile", 6), ("full", 3)],
@@ -669,8 +736,8 @@ FOCUS = {
     "models.CitationBase.full_span": [("full", 6), ("odd_v", 4), ("nested_paren", 4), ("cal_year", 3)],
     "models.CitationBase.__post_init__": [("placeholder", 8), ("id_after_odd_page", 4), ("full", 3)],
     "models.FullCaseCitation.is_parallel_citation": [("nameless_run", 10), ("parallel", 8), ("cal_year", 3), ("string_cite", 3)],
-    "models.ResourceCitation.guess_edition": [("bare", 8), ("cal_year", 5), ("full", 5), ("nameless_run", 4), ("short", 3), ("parallel", 3)],
-    "models.Edition.includes_year": [("bare", 8), ("cal_year", 5), ("full", 5)],
+    "models.ResourceCitation.guess_edition": [("edition_boundary", 12), ("bare", 8), ("cal_year", 5), ("full", 5), ("nameless_run", 4), ("short", 3), ("parallel", 3)],
+    "models.Edition.includes_year": [("edition_boundary", 14), ("bare", 8), ("cal_year", 5), ("full", 5)],
     "find.get_citations": None,  # default mix
     "find._extract_full_citation": [("full", 6), ("bare", 4), ("law", 4), ("journal", 4), ("placeholder", 2)],
     "resolve._resolve_shortcase_citation": [("short_antecedent_elsewhere", 8), ("short_no_volume", 8), ("short", 8), ("short_parallel", 4), ("same_vol_page_series", 3), ("full", 3)],
